@@ -8,6 +8,7 @@ PROP = {
         {"name": "ftoa_sweep", "mode": "enum", "hang_s": 120},
         {"name": "ftoa", "quick": 2000000, "thorough": 30000000, "maxlen": 48},
         {"name": "atof", "quick": 2000000, "thorough": 30000000, "maxlen": 96},
+        {"name": "atof_limits", "quick": 600000, "thorough": 8000000, "maxlen": 24},
         {"name": "atof_partial", "quick": 600000, "thorough": 8000000, "maxlen": 24},
         {"name": "atof_long", "quick": 500000, "thorough": 8000000, "maxlen": 64},
     ],
